@@ -19,7 +19,8 @@ VALUES = [F(1), F(2), F(4), F(1, 2), F(-1), F(-2), F(3), F(8)]
 TAGS = {
     1: 'find_assignment_index differs from model', 2: 'dependencies differs from model',
     3: 'full_expression differs from model', 4: 'reassign differs from model',
-    5: 'remove_symbol_definitions differs from model',
+    5: 'remove_symbol_definitions differs from model', 6: 'subs differs from model',
+    17: 'subs of never-assigned symbols is not the environment update',
     11: 'full_expression does not evaluate like sequential execution',
     12: 'dependencies omits a symbol the value depends on',
     13: 'dependencies not exact on a single-assignment program',
@@ -29,18 +30,19 @@ TAGS = {
 }
 # oracle tag -> (correspondence tag that must be absent for the model to explain it, finding id)
 ORACLE = {11: (3, None), 12: (2, 'C10-DEP-STALE'), 13: (2, 'C10-DEP-INEXACT'), 14: (2, 'C10-DEP-NXERROR'),
-          15: (5, 'C10-RSD-EARLIER-USER'), 16: (5, 'C10-RSD-EARLIER-USER')}
+          15: (5, 'C10-RSD-EARLIER-USER'), 16: (5, 'C10-RSD-EARLIER-USER'), 17: (6, None)}
 # (all four findings are fixed in /repo: open_finding() is None for them, so any recurrence is a VIOLATION)
 
 
 # ------------------------------------------------------------------ generator
-def rexpr(rng, syms, depth):
+def rexpr(rng, syms, depth, nopw=False):
     if depth == 0 or rng.random() < 0.3:
         if rng.random() < 0.2:
             return str(rng.choice([1, 2, 3]))
         return rng.choice(syms)
-    k = rng.choice(['add', 'add', 'mul', 'mul', 'div', 'pow', 'exp', 'log', 'pw', 'neg', 'sqrt'])
-    a, b = rexpr(rng, syms, depth - 1), rexpr(rng, syms, depth - 1)
+    k = rng.choice(['add', 'add', 'mul', 'mul', 'div', 'pow', 'exp', 'log', 'pw', 'neg', 'sqrt'][:(8 if nopw else 11)]
+                   + (['neg', 'sqrt'] if nopw else []))
+    a, b = rexpr(rng, syms, depth - 1, nopw), rexpr(rng, syms, depth - 1, nopw)
     if k == 'add':
         return f'({a} + {b})'
     if k == 'mul':
@@ -57,7 +59,7 @@ def rexpr(rng, syms, depth):
         return f'-({a})'
     if k == 'sqrt':
         return f'sqrt({a})'
-    c, d = rexpr(rng, syms, depth - 1), rexpr(rng, syms, depth - 1)
+    c, d = rexpr(rng, syms, depth - 1, True), rexpr(rng, syms, depth - 1, True)   # no Piecewise inside conditions
     op = rng.choice(['<', '<=', '>', '>=', 'Eq', 'Ne'])
     cond = f'{op}({c}, {d})' if op in ('Eq', 'Ne') else f'({c}) {op} ({d})'
     return f'Piecewise(({a}, {cond}), ({b}, True))'
@@ -95,8 +97,17 @@ def gen_spec(rng):
         'full': [rexpr(rng, allsyms, 1) for _ in range(2)] + [s for s in VARS[:3]],
         'reassign': [[rng.choice(VARS), rexpr(rng, allsyms, 2)] for _ in range(2)],
         'rsd': [[rng.sample(VARS, rng.choice([1, 1, 2])), rng.randrange(len(stmts))] for _ in range(3)],
+        'subs': gen_subs(rng),
     }
     return {'stmts': stmts, 'queries': q}
+
+
+def gen_subs(rng):
+    keys = rng.sample(LEAVES, rng.choice([1, 2]))
+    others = [x for x in LEAVES if x not in keys]
+    leafmap = [[k, rexpr(rng, others + VARS[-2:], 1)] for k in keys]     # non-recursive by construction
+    rename = [[rng.choice(VARS), 'Z9']]                                   # renaming an assigned symbol
+    return [leafmap, rename]
 
 
 def gen_points(rng, names_list):
@@ -136,9 +147,12 @@ def observe(spec, points_rng):
     from pharmpy.basic import Expr
     from pharmpy.model import Assignment
     names = ct.Names()
-    for n in LEAVES + VARS + ['t', 'AMT', 'A_CENTRAL(t)']:
+    for n in LEAVES + VARS + ['t', 'AMT', 'A_CENTRAL(t)', 'Z9']:
         names.get(n)
-    stmts = build(spec)
+    try:
+        stmts = build(spec)
+    except (TypeError, sympy.SympifyError) as e:   # input construction refused by Expr(): not a query failure
+        raise sc.Unconvertible('build: ' + str(e)[:80])
     stmt_terms = [stmt_term(s, names) for s in stmts]
     info = {'n': len(stmts), 'errors': []}
     symbols = LEAVES + VARS + (['A_CENTRAL(t)'] if any(l == 'ODE' for l, _ in spec['stmts']) else [])
@@ -184,11 +198,19 @@ def observe(spec, points_rng):
         assert j == len(r)
         rsds.append(ct.tup(ct.lst([names.p(s) for s in syms]), ct.nat(ri), ct.lst([ct.nat(i) for i in removed])))
         info.setdefault('rsd_removed', []).append(len(removed))
-    pts = gen_points(points_rng, LEAVES + VARS + ['t', 'AMT', 'A_CENTRAL(t)'])
+    subsq = []
+    for pairs in spec['queries'].get('subs', []):
+        if any(l == 'ODE' for l, _ in spec['stmts']):
+            break    # CompartmentalSystem.subs belongs to C05
+        m = {Expr.symbol(k): Expr(sympy.sympify(v)) for k, v in pairs}
+        r = stmts.subs(m)
+        subsq.append(ct.pair(ct.lst([ct.pair(names.p(k), sc.expr(v, names)) for k, v in m.items()]),
+                             ct.lst([stmt_term(x, names) for x in r])))
+    pts = gen_points(points_rng, LEAVES + VARS + ['t', 'AMT', 'A_CENTRAL(t)', 'Z9'])
     envs = ct.lst([sc.env(p, names) for p in pts])
     term = ("(mkCase " + ct.lst(stmt_terms) + "\n  " + ct.lst(finds) + "\n  " + ct.lst(deps) + "\n  " + ct.lst(fulls)
-            + "\n  " + ct.lst(reas) + "\n  " + ct.lst(rsds) + "\n  " + envs + ")")
-    info['nqueries'] = len(finds) + len(deps) + len(fulls) + len(reas) + len(rsds)
+            + "\n  " + ct.lst(reas) + "\n  " + ct.lst(rsds) + "\n  " + ct.lst(subsq) + "\n  " + envs + ")")
+    info['nqueries'] = len(finds) + len(deps) + len(fulls) + len(reas) + len(rsds) + len(subsq)
     return term, info
 
 
@@ -196,7 +218,7 @@ def observe(spec, points_rng):
 def classify(ctx, spec, tags, info):
     """Returns 'ok' | 'known' | 'violation' | 'broken' and reports."""
     tags = set(tags)
-    corr = sorted(t for t in tags if t in (1, 2, 3, 4, 5))
+    corr = sorted(t for t in tags if t in (1, 2, 3, 4, 5, 6))
     oracle = sorted(t for t in tags if t in ORACLE)
     status = 'ok'
     for t in oracle:
@@ -228,13 +250,16 @@ def run_specs(ctx, specs, label):
     for spec in specs:
         try:
             term, info = observe(spec, prng)
-        except (sc.Unconvertible, ZeroDivisionError, sympy.SympifyError, TypeError) as e:
+        except (sc.Unconvertible, ZeroDivisionError) as e:
+            # sympy produced zoo/nan or a node outside the modelled fragment: skipped and counted
             skipped += 1
             continue
         terms.append(term)
         kept.append(spec)
         infos.append(info)
     ctx.coverage['skipped_unconvertible'] = ctx.coverage.get('skipped_unconvertible', 0) + skipped
+    if len(specs) >= 20 and skipped > 0.3 * len(specs):
+        ctx.broken.append(f'correspondence C10: {skipped} of {len(specs)} generated programs could not be exported')
     verdicts = ctx.run_cases(label, 'Base.PyData Base.Expr Base.Interp Base.Stmts C10.Model C10.Check',
                              'case', terms, 'verdict', shard=120)
     stats = {'ok': 0, 'known': 0, 'violation': 0, 'broken': 0}
@@ -304,6 +329,7 @@ def run(ctx):
         'impl_internal_errors': sum(len(i['errors']) for i in infos),
         'guard_def_before_use_false': sum(1 for v in verdicts if 201 in v),
         'not_ssa': sum(1 for v in verdicts if 202 in v),
+        'subs_queries_outside_leaf_guard': sum(v.count(203) for v in verdicts),
     }
     ctx.coverage['samples'] = [{'spec': s, 'tags': v} for s, v in list(zip(kept, verdicts))[:4]]
 
@@ -314,4 +340,4 @@ def replay(ctx, rep):
     tags = verdicts[0]
     print('spec', json.dumps(spec))
     print('tags', tags, [TAGS.get(t, t) for t in tags])
-    return 1 if any(t in ORACLE or t in (1, 2, 3, 4, 5) for t in tags) else 0
+    return 1 if any(t in ORACLE or t in (1, 2, 3, 4, 5, 6) for t in tags) else 0
